@@ -65,8 +65,8 @@ func genC08(r *simrt.Rand, tier string, idx uint64) *Plan {
 	small := -1
 	switch idx % 4 {
 	case 0:
-		// burst then EOF
-		p.Streams = []StreamPlan{{Conn: 0, Echo: true}}
+		// burst then EOF (the stream handler reads into a buffer of its own that the peer's messages may exceed)
+		p.Streams = []StreamPlan{{Conn: 0, Echo: true, RBuf: []int{0, 3, 17}[r.Intn(3)]}}
 		n := 1 + r.Intn(64)
 		var ops []PuppetOp
 		if r.Chance(1, 3) {
@@ -147,7 +147,7 @@ func genC08(r *simrt.Rand, tier string, idx uint64) *Plan {
 		thorough := tier == "thorough"
 		e := (idx/4)*2 + (idx%4 - 2)
 		var ops []PuppetOp
-		p.Streams = []StreamPlan{{Conn: 0, Echo: true}}
+		p.Streams = []StreamPlan{{Conn: 0, Echo: true, RBuf: []int{0, 3, 17}[e%3]}}
 		for k := uint64(0); k < 6; k++ {
 			h, op := c08Point(e*6+k, thorough)
 			if k == 0 {
